@@ -161,7 +161,7 @@ Proof.
 Qed.
 Lemma r_sinc : exact1 f_sinc (fun x => x <> 0) vjp_sinc_0.
 Proof.
-  unf. intros x g H. unfold vjp_sinc_0. pose proof PI_nz.
+  unf. intros x g H. unfold vjp_sinc_0. rewrite (req_neq x 0 H), rwhere_z, (rwhere_nz x x 1 H). pose proof PI_nz.
   assert (PI * x <> 0) by (apply Rmult_integral_contrapositive_currified; assumption).
   split; [der|lin].
 Qed.
